@@ -142,6 +142,7 @@ def build(sc: dict):
     elif fam == "firewall":
         zones = {"ext": ("10.0.1", 1), "int": ("10.0.2", 2), "dmz": ("10.0.3", 3)}
         za, zb = sc["a_zone"], sc["b_zone"]
+        behind = bool(sc.get("b_behind_router"))
         fw = Firewall.from_config({"type": "firewall", "hostname": "FW", "start_up_duration": 0, "shut_down_duration": shut})
         fw.power_on(); add(fw)
         for z, (pre, port) in zones.items():
@@ -151,15 +152,32 @@ def build(sc: dict):
             getattr(fw, a).add_rule(action=ACLAction.PERMIT, position=10)
         pa, pb = zones[za][0], zones[zb][0]
         global_a = pa + ".10"
-        b_ip = pb + ".20"
+        # `b_behind_router`: B is not on the firewall's zone subnet but behind a further router RI of that zone; the firewall has a
+        # route to B's subnet through the zone port (the destination is then NOT in the zone port's own network)
+        b_ip = "10.0.8.20" if behind else pb + ".20"
+        b_gw = "10.0.8.1" if behind else pb + ".1"
         add(_host(Computer, "A", global_a, pa + ".1", shut)); add(_host(Computer, "C", pa + ".11", pa + ".1", shut))
-        add(_host(Server, "B", b_ip, pb + ".1", shut))
+        add(_host(Server, "B", b_ip, b_gw, shut))
         sw("SW1"); sw("SW2")
         link("A", 1, "SW1", 1, "A-SW1"); link("C", 1, "SW1", 2, "C-SW1"); link("SW1", 6, "FW", zones[za][1], "SW1-FW")
-        link("FW", zones[zb][1], "SW2", 6, "FW-SW2"); link("B", 1, "SW2", 1, "SW2-B")
+        if behind:
+            ri = Router.from_config({"type": "router", "hostname": "RI", "num_ports": 2, "start_up_duration": 0, "shut_down_duration": shut})
+            ri.power_on(); add(ri)
+            ri.configure_port(1, pb + ".2", "255.255.255.0")
+            ri.configure_port(2, "10.0.8.1", "255.255.255.0")
+            ri.acl.add_rule(action=ACLAction.PERMIT, position=10)
+            ri.route_table.set_default_route_next_hop_ip_address(pb + ".1")
+            fw.route_table.add_route("10.0.8.0", "255.255.255.0", pb + ".2")
+            link("FW", zones[zb][1], "RI", 1, "FW-RI"); link("RI", 2, "SW2", 6, "RI-SW2")
+            for p in ri.network_interface:
+                ri.enable_port(p)
+        else:
+            link("FW", zones[zb][1], "SW2", 6, "FW-SW2")
+        link("B", 1, "SW2", 1, "SW2-B")
         for p in fw.network_interface:
             fw.enable_port(p)
-        info = {"b_ip": b_ip, "b_net": pb + ".0/24", "a_ip": global_a, "fw_a_port": zones[za][1], "fw_b_port": zones[zb][1]}
+        info = {"b_ip": b_ip, "b_net": ("10.0.8" if behind else pb) + ".0/24", "a_ip": global_a, "fw_a_port": zones[za][1],
+                "fw_b_port": zones[zb][1]}
     else:
         raise ValueError(fam)
     info.setdefault("a_ip", A_IP)
@@ -218,6 +236,8 @@ def edges(sc: dict) -> List[tuple]:
     if fam == "routed":
         mid = [("R1", "SW2")] if sc.get("routers", 1) == 1 else [("R1", "R2"), ("R2", "SW2")]
         return [("A", "SW1"), ("C", "SW1"), ("SW1", "R1")] + mid + [("SW2", "B")]
+    if sc.get("b_behind_router"):
+        return [("A", "SW1"), ("C", "SW1"), ("SW1", "FW"), ("FW", "RI"), ("RI", "SW2"), ("SW2", "B")]
     return [("A", "SW1"), ("C", "SW1"), ("SW1", "FW"), ("FW", "SW2"), ("SW2", "B")]
 
 
@@ -256,7 +276,7 @@ def protected(sc: dict) -> List[str]:
     elif m == "fw_port_a_disabled":
         removed = [("SW1", "FW")]
     elif m == "fw_port_b_disabled":
-        removed = [("FW", "SW2")]
+        removed = [("FW", "RI") if sc.get("b_behind_router") else ("FW", "SW2")]
     else:
         raise ValueError(m)
     live = [e for e in es if e not in removed and (e[1], e[0]) not in removed]
@@ -368,7 +388,8 @@ def topo_lines(sc: dict, sim, N, prot: List[str], info: Optional[dict] = None) -
         for p in sorted(n.network_interface):
             ni = n.network_interface[p]
             if getattr(ni, "ip_address", None) is not None and getattr(ni, "subnet_mask", None) is not None:
-                lines.append(f"t-iface {idx[h]} {1 if ni.enabled else 0} {ni.ip_address} {ni.subnet_mask}")
+                lines.append(f"t-iface {idx[h]} {1 if ni.enabled else 0} {ni.ip_address} {ni.subnet_mask} "
+                             f"{int(ni.mac_address.replace(':', ''), 16)}")
             else:
                 lines.append(f"t-iface {idx[h]} {1 if ni.enabled else 0}")
         acls = {}
@@ -389,9 +410,66 @@ def topo_lines(sc: dict, sim, N, prot: List[str], info: Optional[dict] = None) -
     for c in class_patterns(sc, info or {"a_ip": A_IP, "b_ip": "10.0.2.20"}):
         lines.append(f"t-class {o(c['proto'])} {o(c['src_ip'])} {o(c['src_wc'])} {o(c['dst_ip'])} {o(c['dst_wc'])} - -")
     lines.append(f"t-arp {1 if arp_exempt(sc) else 0}")
+    # network-level certificate (certifyN): every port is labelled with the subnet of its layer-2 segment.  The labels are
+    # computed HERE (union of wired ports, all ports of a switch); the certificate only checks them locally, so a wrong label
+    # can make it reject, never accept wrongly.
+    parent: Dict[tuple, tuple] = {}
+
+    def find(x):
+        parent.setdefault(x, x)
+        while parent[x] != x:
+            parent[x] = parent[parent[x]]
+            x = parent[x]
+        return x
+
+    for link in sim.network.links.values():
+        a, b = link.endpoint_a, link.endpoint_b
+        parent[find((a._connected_node.config.hostname, a.port_num))] = find((b._connected_node.config.hostname, b.port_num))
+    for h in names:
+        if isinstance(N[h], Switch):
+            ports = sorted(N[h].network_interface)
+            for p in ports[1:]:
+                parent[find((h, p))] = find((h, ports[0]))
+    seg_net: Dict[tuple, tuple] = {}
+    for h in names:
+        for p in sorted(N[h].network_interface):
+            ni = N[h].network_interface[p]
+            if getattr(ni, "ip_address", None) is not None and getattr(ni, "subnet_mask", None) is not None:
+                seg_net.setdefault(find((h, p)), (str(ni.ip_network.network_address), str(ni.subnet_mask)))
+    for h in names:
+        for p in sorted(N[h].network_interface):
+            net = seg_net.get(find((h, p)))
+            if net is not None:
+                lines.append(f"t-label {idx[h]} {p - 1} {net[0]} {net[1]}")
+    for h in names:
+        if roles.get(h) == "routerDeny":
+            for p in sorted(N[h].network_interface):
+                ni = N[h].network_interface[p]
+                lines.append(f"t-rtrif {int(ni.mac_address.replace(':', ''), 16)} {ni.ip_address}")
     lines.append("t-certify")
     lines.append("t-certifyC")
+    lines.append("t-certifyN")
     return lines
+
+
+def expect_certified_n(sc: dict, prot: List[str]) -> str:
+    """What `certifyN` must answer for the scenario's real post-block network: it is the hypothesis-free theorem
+    (C06_certifiedN_unchanged) exactly when the attacker side consists of hosts and switches only, no element blocks by a disabled
+    boundary interface of its own (role ifaceDown: that theorem needs SoftKeeps), and the class is a SOURCE class or everything."""
+    roles = roles_for(sc)
+    names = sorted({x for e in edges(sc) for x in e})
+    if sc["block"] in ("router_deny_dst_exact", "router_deny_three_protocols"):
+        return "uncertifiedN"
+    for h in names:
+        role = roles.get(h, "interior")
+        side = (h not in prot) or role != "interior"
+        if not side:
+            continue
+        if role == "ifaceDown":
+            return "uncertifiedN"
+        if role == "interior" and h not in ("A", "B", "C", "SW1", "SW2"):  # an interior router / firewall (R1, R2, RI, FW)
+            return "uncertifiedN"
+    return "certifiedN-fw2" if sc["block"] == "fw_second_stage_deny" else "certifiedN"
 
 
 def apply_block(sc: dict, sim, N, info, timestep_fn):
@@ -465,7 +543,7 @@ def apply_block(sc: dict, sim, N, info, timestep_fn):
 # ------------------------------------------------------------------------------------------ red repertoire
 OPS = ["ping", "ping_scan", "port_scan_tcp", "port_scan_udp", "port_scan_arp_port", "db_connect", "db_query", "db_query_new",
        "ftp_send", "data_manip", "ransomware", "dos", "term_login", "term_command", "c2_establish", "c2_terminal",
-       "c2_ransomware", "c2_exfil", "web_get", "c_ping", "tick"]
+       "c2_ransomware", "c2_exfil", "web_get", "c_ping", "ping_gw", "tick"]
 
 
 def do_op(op: str, N, info) -> str:
@@ -480,6 +558,10 @@ def do_op(op: str, N, info) -> str:
         return str(a.ping(b_ip, pings=2))
     if op == "c_ping":
         return str(c.ping(b_ip, pings=1))
+    if op == "ping_gw":
+        # traffic addressed to the blocking element ITSELF (its own software answers): it must not make the element let anything through
+        gw = a.config.default_gateway
+        return "no-gw" if not gw else str(a.ping(gw, pings=1))
     if op == "ping_scan":
         from ipaddress import IPv4Network
         return str(len(sw["nmap"].ping_scan(target_ip_address=IPv4Network(info["b_net"]), show=False)))
@@ -550,6 +632,8 @@ def _run_once(sc: dict, with_block: bool, post_ops: List[str], wrappers: bool, p
     """pre ops, (block), post ops; every op is followed by one simulation timestep."""
     from primaite.simulator.network.hardware.base import Link
     from primaite.simulator.network.hardware.nodes.network.router import AccessControlList, Router
+    from primaite.simulator.network.hardware.nodes.network.switch import Switch
+    from primaite.simulator.network.protocols.arp import ARPPacket
     from primaite.simulator.system.core.session_manager import SessionManager
     sim, N, info = build(sc)
     t = {"n": 0}
@@ -592,17 +676,91 @@ def _run_once(sc: dict, with_block: bool, post_ops: List[str], wrappers: bool, p
         return permitted, rule
 
     barrier = set(roles_for(sc)) - set(prot) if with_block else set()
-    to_prot = {"n": 0, "on": False}
+    to_prot = {"n": 0, "arp": 0, "on": False}
     cls = class_patterns(sc, info) if with_block else None
     exempt = arp_exempt(sc)
     closure = {"ok": 0, "bad": []}
     prot_origin: Dict[int, Any] = {}
 
+    # -- validation of the attacker-side MODELS of Props/C06Net.lean on the implementation (every run, every frame)
+    sw_in: Dict[str, list] = {}
+    model_bad: List[str] = []
+    model_ok = {"switch": 0, "arp": 0, "stamp": 0}
+    rtr_macs = {}
+    for n in N.values():
+        if isinstance(n, Router):
+            for ni in n.network_interface.values():
+                rtr_macs[ni.mac_address] = ni.ip_address
+
+    def snap(frame):
+        # the TTL is left out: one Frame object is shared by all recipients of a flood and each receiving interface decrements it
+        return (frame.ethernet.src_mac_addr, frame.ethernet.dst_mac_addr, str(frame.ip.src_ip_address), str(frame.ip.dst_ip_address),
+                str(frame.ip.protocol), None if frame.tcp is None else (frame.tcp.src_port, frame.tcp.dst_port),
+                None if frame.udp is None else (frame.udp.src_port, frame.udp.dst_port), id(frame.payload))
+
+    real_swrx = Switch.receive_frame
+
+    def swrx(self, frame, from_network_interface):
+        # delivery is synchronous and re-entrant: a stack per switch, the frame being handled is on top
+        st = sw_in.setdefault(self.config.hostname, [])
+        st.append((id(frame), snap(frame)))
+        try:
+            return real_swrx(self, frame, from_network_interface)
+        finally:
+            st.pop()
+
+    created: Dict[int, Any] = {}
+
+    def check_models(sender_nic, frame):
+        node = sender_nic._connected_node
+        h = node.config.hostname
+        if isinstance(node, Switch):
+            # switchStd: a switch sends THE frame it received, unchanged
+            st = sw_in.get(h)
+            got = st[-1] if st else None
+            if got is None or got[0] != id(frame) or got[1] != snap(frame):
+                model_bad.append(f"{h}: switch sent a frame that is not the unchanged frame it received")
+            else:
+                model_ok["switch"] += 1
+            return
+        first = id(frame) not in created
+        if first:
+            created[id(frame)] = frame
+        if isinstance(frame.payload, ARPPacket):
+            # ArpWf: a request is a broadcast whose sender is the emitting interface (hence in its subnet); a reply addressed to a
+            # router interface's MAC is addressed to that interface's address
+            a = frame.payload
+            ok = frame.udp is not None and int(frame.udp.dst_port) == 219
+            if a.request:
+                ok = ok and frame.ethernet.dst_mac_addr == "ff:ff:ff:ff:ff:ff"
+                if first:
+                    ok = ok and a.sender_ip_address == sender_nic.ip_address and a.sender_mac_addr == sender_nic.mac_address \
+                        and frame.ethernet.src_mac_addr == sender_nic.mac_address
+            else:
+                m = frame.ethernet.dst_mac_addr
+                ok = ok and (m not in rtr_macs or rtr_macs[m] == frame.ip.dst_ip_address)
+            if ok:
+                model_ok["arp"] += 1
+            else:
+                model_bad.append(f"{h}: ARP {'request' if a.request else 'reply'} {a.sender_ip_address}->{a.target_ip_address} is not "
+                                 f"well-formed (dst {frame.ethernet.dst_mac_addr}/{frame.ip.dst_ip_address})")
+        if first and not isinstance(node, Router):
+            # hostStamp: a frame a host creates carries the outbound interface's own MAC and address as source
+            if frame.ethernet.src_mac_addr == sender_nic.mac_address and frame.ip.src_ip_address == sender_nic.ip_address:
+                model_ok["stamp"] += 1
+            else:
+                model_bad.append(f"{h}: created a frame with source {frame.ethernet.src_mac_addr}/{frame.ip.src_ip_address}, interface is "
+                                 f"{sender_nic.mac_address}/{sender_nic.ip_address}")
+
     def tx(self, sender_nic, frame):
+        check_models(sender_nic, frame)
         if to_prot["on"] and sender_nic._connected_node.config.hostname in barrier:
             rx = self.endpoint_b if self.endpoint_a is sender_nic else self.endpoint_a
             if rx is not None and rx._connected_node is not None and rx._connected_node.config.hostname in prot:
-                to_prot["n"] += 1
+                # the element's OWN address resolution (an ARP request it builds itself) is counted apart from everything else
+                own_arp = (isinstance(frame.payload, ARPPacket) and frame.payload.request
+                           and frame.payload.sender_mac_addr == sender_nic.mac_address)
+                to_prot["arp" if own_arp else "n"] += 1
         if sender_nic._connected_node.config.hostname in prot and id(frame) not in prot_origin:
             # a frame a PROTECTED node created (B's own keep-alives, replies to what was permitted): when a rule that is specific to
             # attacker sources lets it through, the blocking router forwards it into the attacker side; it is not attacker traffic
@@ -640,6 +798,7 @@ def _run_once(sc: dict, with_block: bool, post_ops: List[str], wrappers: bool, p
             es.enter_context(mock.patch.object(Link, "transmit_frame", tx))
             es.enter_context(mock.patch.object(SessionManager, "receive_frame", srx))
             es.enter_context(mock.patch.object(Router, "process_frame", proc))
+            es.enter_context(mock.patch.object(Switch, "receive_frame", swrx))
         tick()
         for op in sc["pre_ops"]:
             guarded(op)
@@ -652,8 +811,8 @@ def _run_once(sc: dict, with_block: bool, post_ops: List[str], wrappers: bool, p
         for op in post_ops:
             guarded(op)
         tick()
-    return {"obs": {h: node_obs(N[h]) for h in prot}, "at_block": at_block, "topo": topo, "to_prot": to_prot["n"], "log": log, "errors": errors,
-            "frame_viol": frame_viol, "closure": closure}
+    return {"obs": {h: node_obs(N[h]) for h in prot}, "at_block": at_block, "topo": topo, "to_prot": to_prot["n"], "to_prot_arp": to_prot["arp"], "log": log, "errors": errors,
+            "frame_viol": frame_viol, "closure": closure, "model_ok": model_ok, "model_bad": model_bad[:3]}
 
 
 def _first_diff(a: Any, b: Any, path: str = "") -> Optional[str]:
@@ -683,14 +842,22 @@ def run_scenario(sc: dict, control: bool = True) -> dict:
         # towards the protected side does not depend on what the attacker side does
         violations.append({"kind": "blocking-element-emitted-to-protected", "what":
                            f"blocking element put {attack['to_prot']} frames on protected-side wires after the block, {idle['to_prot']} when A idles"})
+    if attack["to_prot_arp"] != idle["to_prot_arp"]:
+        violations.append({"kind": "blocking-element-arp-request-to-protected", "what":
+                           f"blocking element sent {attack['to_prot_arp']} ARP requests of its own into the protected side after the "
+                           f"block, {idle['to_prot_arp']} when A idles"})
     for h in prot:
         d = _first_diff(idle["obs"][h], attack["obs"][h], h)
         if d:
             violations.append({"kind": "protected-state-changed", "node": h, "diff": d})
+    # the host B first: a change of B's own state is what the property forbids in so many words
+    violations.sort(key=lambda v: 0 if v.get("node") == "B" else 1)
     for v in sorted(set(attack["frame_viol"])):
         violations.append({"kind": "denied-frame-not-inert", "what": v})
     res = {"violations": violations, "log": attack["log"], "errors": attack["errors"], "nontrivial": None, "protected": prot,
-           "topo": attack["topo"], "closure": attack["closure"], "topo_ctl": []}
+           "topo": attack["topo"], "closure": attack["closure"], "topo_ctl": [],
+           "model_ok": {k: attack["model_ok"][k] + idle["model_ok"][k] for k in attack["model_ok"]},
+           "model_bad": attack["model_bad"] + idle["model_bad"]}
     if control:
         sc2 = dict(sc, missing_links=[], _want_topo=True)
         ctl = _run_once(sc2, False, sc["post_ops"], False, prot)
@@ -710,9 +877,14 @@ def gen_scenario(rng: Rng, max_ops: int = 8) -> dict:
     if fam == "firewall":
         za = rng.choice(["ext", "int", "dmz"])
         sc["a_zone"], sc["b_zone"] = za, rng.choice([z for z in ("ext", "int", "dmz") if z != za])
+        if sc["b_zone"] != "dmz" and rng.chance(1, 3):
+            # B behind a further router of its zone.  Not for the DMZ: the firewall tells "for the DMZ" by `dst in dmz_port.ip_network`
+            # (model: `inDmzNet`), so a host behind a DMZ router is guarded by the internal-inbound / external-outbound list, not by
+            # dmz_inbound_acl — a rule put there is no block for it (zoneTable quirk, kept in the model since round 1)
+            sc["b_behind_router"] = True
     if sc["block"] in ("missing_link", "removed_link"):
         cands = {"switched": ["SW1-SW2", "SW2-B"], "routed": ["SW1-R1", "R1-SW2" if sc.get("routers") == 1 else "R1-R2", "SW2-B"],
-                 "firewall": ["SW1-FW", "FW-SW2", "SW2-B"]}[fam]
+                 "firewall": ["SW1-FW", "FW-RI" if sc.get("b_behind_router") else "FW-SW2", "SW2-B"]}[fam]
         name = rng.choice(cands)
         if sc["block"] == "missing_link":
             sc["missing_links"] = [name]
@@ -728,10 +900,36 @@ def gen_scenario(rng: Rng, max_ops: int = 8) -> dict:
     return sc
 
 
+def directed_scenarios(rng: Rng) -> List[dict]:
+    """A small fixed family run every time: traffic addressed to the BLOCKING ELEMENT ITSELF (its own software answers: ICMP, ARP,
+    the session manager between a firewall's two stages) followed by attacks on B — the situation in which software on the
+    blocking element could undo the block (re-enable a boundary interface, relay) — for each way an element blocks."""
+    out = []
+    tail = ["ping", "data_manip", "db_query_new", "port_scan_tcp", "c_ping"]
+    for fam, block, extra in (("routed", "router_port_b_disabled", {"routers": 1, "at": "R1"}),
+                              ("routed", "router_port_b_disabled", {"routers": 2, "at": "R1"}),
+                              ("routed", "router_deny_anyany", {"routers": 1, "at": "R1"}),
+                              ("routed", "router_deny_src_range", {"routers": 1, "at": "R1"}),
+                              ("firewall", "fw_port_b_disabled", {"a_zone": "ext", "b_zone": "int"}),
+                              ("firewall", "fw_second_stage_deny", {"a_zone": "dmz", "b_zone": "int"}),
+                              ("firewall", "fw_second_stage_deny", {"a_zone": "dmz", "b_zone": "int", "b_behind_router": True}),
+                              ("firewall", "fw_second_stage_deny", {"a_zone": "ext", "b_zone": "int", "b_behind_router": True}),
+                              ("firewall", "fw_first_stage_deny", {"a_zone": "int", "b_zone": "ext"})):
+        sc = {"family": fam, "block": block, "rule_pos": rng.choice([0, 1, 3]), "pre_ops": [rng.choice(["ping", "db_connect", "tick"])],
+              "post_ops": ["ping_gw"] + [rng.choice(tail) for _ in range(2)] + ["ping_gw", rng.choice(tail)]}
+        sc.update(extra)
+        out.append(sc)
+    return out
+
+
 def sig_of(sc: dict, v: dict) -> dict:
     s = {"kind": v["kind"], "family": sc["family"], "block": sc["block"]}
+    if sc["family"] == "firewall":
+        s["a_zone"] = sc.get("a_zone")
+        s["b_behind_router"] = bool(sc.get("b_behind_router"))
     if v["kind"] == "protected-state-changed":
         s["node"] = v["node"]
+        s["where"] = v["diff"].split(":")[0].split("/")[1].split("[")[0] if "/" in v["diff"].split(":")[0] else ""
     return s
 
 
@@ -740,16 +938,19 @@ def run(ctx: Ctx):
     for f in sorted((VERIF / "corpus" / "C06").glob("net-*.json")):
         scenarios.append(("corpus:" + f.name, json.loads(f.read_text())["scenario"]))
     rng = ctx.rng.fork("net")
+    for k, sc in enumerate(directed_scenarios(ctx.rng.fork("net-directed"))):
+        scenarios.append((f"directed:{k}", sc))
     for k in range(ctx.scale(45, 900)):
         scenarios.append((f"gen:{k}", gen_scenario(rng, max_ops=ctx.scale(6, 10))))
     clean = 0
     results = [(name, sc, run_scenario(sc, control=True)) for name, sc in scenarios]
-    from harness.lib.core import run_driver
+    from harness.lib.core import load_findings, run_driver, sig_matches
+    open_f = [f for f in load_findings() if f["property"] == "C06" and f.get("status") == "open"]
     all_lines: List[str] = []
     for _, _, res in results:
         all_lines += res["topo"] + res["topo_ctl"]
     answers = run_driver("drv_c06", all_lines)
-    pos, cert_bad, certc_bad, ctl_bad, closure_bad = 0, [], [], [], []
+    pos, cert_bad, certc_bad, ctl_bad, closure_bad, certn_bad, model_bad_all = 0, [], [], [], [], [], []
     for name, sc, res in results:
         chunk = answers[pos:pos + len(res["topo"])]
         pos += len(res["topo"])
@@ -757,36 +958,82 @@ def run(ctx: Ctx):
         pos += len(res["topo_ctl"])
         if "bad-op" in chunk or "bad-op" in chunk_ctl:
             raise RuntimeError(f"driver rejected a topology line of {name}")
-        res["certificate"] = chunk[-2]
-        res["certificateC"] = chunk[-1]
-        ok = chunk[-2] == "certified"
-        okc = chunk[-1] == "certifiedC"
+        res["certificate"] = chunk[-3]
+        res["certificateC"] = chunk[-2]
+        res["certificateN"] = chunk[-1]
+        ok = chunk[-3] == "certified"
+        okc = chunk[-2] == "certifiedC"
         ctx.count(f"net:{'certified' if ok else 'uncertified'}:{sc['block']}")
         ctx.count(f"net:{'certifiedC' if okc else 'uncertifiedC'}:{sc['block']}")
+        ctx.count(f"net:{chunk[-1].split()[0]}:{sc['block']}")
+        want_n = expect_certified_n(sc, res["protected"])
+        if chunk[-1].split()[0] != want_n:
+            certn_bad.append(f"{name} {sc['family']}/{sc['block']}: {chunk[-1]}, expected {want_n}")
+        # which theorem covers the scenario, and what it still assumes
+        roles = set(roles_for(sc).values())
+        if chunk[-1] == "certifiedN":
+            ctx.count("net:theorem:C06_certifiedN_unchanged:no-hypothesis")
+        elif ok and "ifaceDown" not in roles and "routerDeny" not in roles:
+            ctx.count("net:theorem:C06_certified_unchanged:no-hypothesis(arbitrary interior handlers)")
+        elif ok and "routerDeny" not in roles:
+            ctx.count("net:theorem:C06_certified_unchanged_confined:software-set-of-the-ifaceDown-element-confined")
+        elif chunk[-1] == "certifiedN-fw2":
+            ctx.count("net:theorem:C06_certifiedN_unchanged:FwSecondOK")
+        elif res["closure"]["bad"]:
+            ctx.count("net:theorem:none(oracle only: the closure hypothesis of the class theorem does not hold in this run)")
+        else:
+            ctx.count("net:theorem:C06_certifiedC_unchanged:closure+software-hypotheses")
         if sc["block"] in CERTIFIABLE and not ok:
-            cert_bad.append(f"{name} {sc['family']}/{sc['block']}: {chunk[-2]}")
+            cert_bad.append(f"{name} {sc['family']}/{sc['block']}: {chunk[-3]}")
         if sc["block"] not in CERTIFIABLE and ok:
             cert_bad.append(f"{name} {sc['family']}/{sc['block']}: certified although the block is class-specific")
         if not okc:
-            certc_bad.append(f"{name} {sc['family']}/{sc['block']}: {chunk[-1]}")
+            certc_bad.append(f"{name} {sc['family']}/{sc['block']}: {chunk[-2]}")
         if chunk_ctl:
             # non-vacuity of both certificates: the same network without the block must be rejected (a scenario whose block is
             # a link that was never plugged in has no unblocked counterpart with that wire missing: its control has the wire)
-            if chunk_ctl[-2] == "certified" or chunk_ctl[-1] == "certifiedC":
-                ctl_bad.append(f"{name} {sc['family']}/{sc['block']}: unblocked network accepted ({chunk_ctl[-2]}, {chunk_ctl[-1]})")
-            ctx.count("net:unblocked-network-rejected" if not (chunk_ctl[-2] == "certified" or chunk_ctl[-1] == "certifiedC")
-                      else "net:unblocked-network-ACCEPTED")
+            acc = chunk_ctl[-3] == "certified" or chunk_ctl[-2] == "certifiedC" or chunk_ctl[-1].startswith("certifiedN")
+            if acc:
+                ctl_bad.append(f"{name} {sc['family']}/{sc['block']}: unblocked network accepted ({chunk_ctl[-3]}, {chunk_ctl[-2]}, "
+                               f"{chunk_ctl[-1]})")
+            ctx.count("net:unblocked-network-rejected" if not acc else "net:unblocked-network-ACCEPTED")
         ctx.count("net:class-closure-frames-checked", res["closure"]["ok"] + len(res["closure"]["bad"]))
+        closure_proved = chunk[-1].startswith("certifiedN")
+        for k, v in res["model_ok"].items():
+            ctx.count(f"net:model-validated:{k}-frames", v)
+        if res["model_bad"]:
+            model_bad_all.append(f"{name} {sc['family']}/{sc['block']}: {res['model_bad'][0]}")
+            if len(model_bad_all) <= 3:
+                what = res["model_bad"][0]
+                ctx.violation({"kind": "attacker-side-model-vs-impl", "rig": "net", "element": what.split(":")[1].strip().split(" ")[0]},
+                              f"{sc['family']}/{sc['block']}: the implementation leaves the model of Props/C06Net.lean: {what}",
+                              {"rig": "net", "scenario": sc, "model_bad": res["model_bad"], "from": name})
         if res["closure"]["bad"]:
-            closure_bad.append(f"{name} {sc['family']}/{sc['block']}: {res['closure']['bad'][0]}")
+            if closure_proved:
+                # the closure is PROVED for this network (hosts, switches, blocking router's ARP): a frame outside the class on the
+                # wire contradicts the model
+                closure_bad.append(f"{name} {sc['family']}/{sc['block']}: {res['closure']['bad'][0]}")
+            else:
+                # the closure is only a hypothesis here (destination-/protocol-specific class, or an interior router whose own
+                # software answers): it does not hold for this run, so the class theorem does not cover the scenario (oracle only)
+                ctx.count(f"net:closure-hypothesis-does-not-hold:{sc['block']}")
+                res["closure_fails"] = True
     ctx.oblige("rig:R-net the proved cut certificate accepts the real post-block network", "correspondence", not cert_bad,
                "; ".join(cert_bad[:5]))
     ctx.oblige("rig:R-net the proved class-aware certificate (certifyC) accepts the real post-block network of EVERY scenario",
                "correspondence", not certc_bad, "; ".join(certc_bad[:5]))
-    ctx.oblige("rig:R-net both certificates reject the same network without the block", "correspondence", not ctl_bad,
+    ctx.oblige("rig:R-net the network-level certificate (certifyN: hosts and switches modelled, no closure hypothesis) answers as "
+               "expected on the real post-block network of every scenario", "correspondence", not certn_bad, "; ".join(certn_bad[:5]))
+    ctx.oblige("rig:R-net all three certificates reject the same network without the block", "correspondence", not ctl_bad,
                "; ".join(ctl_bad[:5]))
-    ctx.oblige("rig:R-net every frame put on a wire by an attacker-side node after the block is in the scenario's frame class "
-               "(closure hypothesis of C06_certifiedC_unchanged)", "correspondence", not closure_bad, "; ".join(closure_bad[:5]))
+    ctx.oblige("rig:R-net where the closure is PROVED (certifyN accepts: hosts, switches, blocking router), every frame put on a wire "
+               "by an attacker-side node after the block is in the scenario's frame class; elsewhere the closure hypothesis of "
+               "C06_certifiedC_unchanged is measured and the scenario counted oracle-only when it fails", "correspondence",
+               not closure_bad, "; ".join(closure_bad[:5]))
+    ctx.oblige("rig:R-net the attacker-side models of C06Net hold on every transmitted frame (a switch sends the unchanged frame it "
+               "received; a frame a host creates carries the outbound interface's own MAC and address; ARP requests are broadcasts "
+               "with the emitting interface as sender, ARP replies to a router interface's MAC are for its address)", "correspondence",
+               not model_bad_all, "; ".join(model_bad_all[:5]))
     for name, sc, res in results:
         ctx.cov["traces_validated_against_impl"] += 1
         ctx.case(sc, bool(res["nontrivial"]))
@@ -804,16 +1051,29 @@ def run(ctx: Ctx):
             if name.startswith("gen:"):
                 ctx.sample({"rig": "net", "scenario": sc, "log": res["log"][:6]}, cap=5)
             continue
-        v = res["violations"][0]
+        if all(any(sig_matches(f["signature"], sig_of(sc, v)) for f in open_f) for v in res["violations"]):
+            # every violation of this scenario is a recorded open finding (reported KNOWN-FINDING by Ctx.finish)
+            clean += 1
+            ctx.count("net:scenario-shows-only-known-findings")
+            for v in res["violations"]:
+                ctx.violation(sig_of(sc, v), f"{sc['family']}/{sc['block']}: {v.get('diff') or v.get('what')} after {sc['post_ops']}",
+                              {"rig": "net", "scenario": sc, "violations": res["violations"], "log": res["log"], "from": name})
+            continue
+        v = next(v for v in res["violations"] if not any(sig_matches(f["signature"], sig_of(sc, v)) for f in open_f))
 
-        def fails(ops, sc=sc):
-            return bool(run_scenario(dict(sc, post_ops=ops), control=False)["violations"])
+        def fails(ops, sc=sc, kind=v["kind"]):
+            return any(w["kind"] == kind for w in run_scenario(dict(sc, post_ops=ops), control=False)["violations"])
         small = dict(sc, post_ops=shrink_ops(sc["post_ops"], fails, budget=25))
         res2 = run_scenario(small, control=False)
-        if not res2["violations"]:
+        if not any(w["kind"] == v["kind"] for w in res2["violations"]):
             small, res2 = sc, res
-        v = res2["violations"][0]
-        ctx.violation(sig_of(small, v), f"{small['family']}/{small['block']}: {v.get('diff') or v.get('what')} after {small['post_ops']}",
-                      {"rig": "net", "scenario": small, "violations": res2["violations"], "log": res2["log"], "from": name})
+        done = set()
+        for w in res2["violations"]:
+            key = json.dumps(sig_of(small, w), sort_keys=True)
+            if key in done:
+                continue
+            done.add(key)
+            ctx.violation(sig_of(small, w), f"{small['family']}/{small['block']}: {w.get('diff') or w.get('what')} after {small['post_ops']}",
+                          {"rig": "net", "scenario": small, "violations": res2["violations"], "log": res2["log"], "from": name})
     ctx.oblige("rig:R-net protected side unchanged on every scenario", "oracle", clean == len(scenarios),
                f"{len(scenarios) - clean} of {len(scenarios)} scenarios show a change on the protected side")
